@@ -665,16 +665,17 @@ for _sim, _cfg in (("CircuitPermMPS", "-"), ("CircuitMPS", "-"), ("Circuit", "la
 @obligation(PROP, params=_PT, rounds=2, timeout_s=500, wall_s=400, max_rows=80000)
 def perm_tracking(mk, sim, cfg, N, g):
     """a non-adjacent two-qubit gate on the ordered pair g, then SWAP on EVERY ordered pair of qubits (one path
-    per pair), then IDEN and further one- and two-qubit gates on the swapped qubits: every simulator holds the
+    per pair), then IDEN, RY and CX on the swapped qubits: every simulator holds the
     reference state.  For CircuitPermMPS the first gate makes the tracked site <-> qubit map non-trivial, and
     the SWAP / later gates must address logical qubits through it."""
     mk.encodes(cmps.CircuitPermMPS._apply_gate, cmps.CircuitPermMPS.get_psi, cmps.CircuitPermMPS.calc_qubit_ordering,
                cmps.CircuitMPS.to_dense, cmps.CircuitMPS.amplitude, ccore.CircuitBase._apply_gate, G.apply_swap)
-    pairs = _ordered_pairs(N)
+    # SWAP qubit pairs: every ordered pair on 3 qubits, every unordered pair (alternating orientation) on 4
+    pairs = _ordered_pairs(N) if N == 3 else [(i, j) if (i + j) % 2 else (j, i) for i in range(N) for j in range(i + 1, N)]
     sw = mk.choice("swap_pair", pairs)
     t = next(q for q in range(N) if q not in sw) if N > 2 else sw[1]
     specs = [("RY", "a", 0), ("RX", "b", 1), ("RY", "c", 2)] + ([("RX", "a", 3)] if N == 4 else [])
-    specs += [("CX",) + tuple(g), ("SWAP",) + tuple(sw), ("IDEN", sw[0]), ("RY", "b", sw[1]), ("CX", sw[0], t), ("CZ", sw[1], sw[0])]
+    specs += [("CX",) + tuple(g), ("SWAP",) + tuple(sw), ("IDEN", sw[0]), ("RY", "b", sw[1]), ("CX", sw[0], t)]
     p = build_program(mk, specs, kind="real")
     v = ref_state(mk, p, N, basis0(mk, N))
     mps = sim in _MPS_SIMS
@@ -686,8 +687,8 @@ def perm_tracking(mk, sim, cfg, N, g):
         else:
             circ = qtn.Circuit(N, **_EXACT_CFG[cfg]) if sim == "Circuit" else qtn.CircuitDense(N)
         apply_program(mk, circ, p)
-        kw = NOSIMP if sim == "Circuit" else {}
-        tag = f"{sim}: CX{tuple(g)}; SWAP{tuple(sw)}; IDEN; RY; CX; CZ"
+        kw = {} if mps else NOSIMP
+        tag = f"{sim}: CX{tuple(g)}; SWAP{tuple(sw)}; IDEN; RY; CX"
         mk.eq(f"{tag}: to_dense() == reference state", np.asarray(circ.to_dense(**kw)).reshape(-1), v)
         for b in ("0" * N, "1" * N, ("10" * N)[:N], ("011" * N)[:N]):
             mk.eq(f"{tag}: amplitude('{b}')", circ.amplitude(b, **kw), v[int(b, 2)])
